@@ -948,6 +948,9 @@ def execute(scenario, keep_trace=False):
                 await go.wait()
             return await request_blob(loop, blob, HOSTILE_IP, PORT, T['connect'], T['download'])
         tasks = [loop.create_task(first()), loop.create_task(second())]
+        # a liar told to wait for a share of the honest body the transfer never reports (the threshold can exceed what
+        # is delivered) must not wait for ever on the harness' own event
+        tasks[0].add_done_callback(lambda _t: go.set())
         bound = 2 * (T['connect'] + 2 * T['download']) + 5.0
         done, pending = await asyncio.wait(tasks, timeout=bound)
         go.set()
